@@ -41,6 +41,63 @@ def _branch_return(body):
 
 
 def r1_subtler_chain(ctx):
+    from .common import run_fallback
+
+    try:
+        _subtler_by_interpretation(ctx)
+    except AnalysisError as e:
+        run_fallback(ctx, _r1_subtler_chain_shape, e, "type-valued key function")
+
+
+def _subtler_by_interpretation(ctx):
+    """Interpret the key function on host values of every kind it distinguishes."""
+    import types
+    import typing
+
+    from ..metainterp import HostInterp, Raised, Record
+
+    f = A.subtler_fn(ctx.repo)
+    ctx.touch(f)
+
+    class Plain:
+        pass
+
+    import abc
+
+    class WithMeta(abc.ABC):
+        pass
+
+    union_types = tuple(t for t in (type(typing.Union[int, str]), getattr(types, "UnionType", None)) if t is not None)
+    genv = {"typing": typing, "types": types, "GenericAlias": types.GenericAlias, "UnionType": getattr(types, "UnionType", None), "UnionTypes": union_types, "functools": __import__("functools")}
+    funcs = {n: g.node for n, g in f.module.funcs.items() if g.parent is None and g.cls is None and g is not f}
+    hi = HostInterp({}, Record(), {}, globals_env=genv, classes={}, functions=funcs)
+    cases = [
+        ("generic->type[obj]", "a parametrised generic passed as an argument is keyed as type[obj]", list[int], type[list[int]], "generic aliases such as list[int] are no longer keyed as type[list[int]]: type[...] methods stop matching them"),
+        ("union->type[obj]", "a union object passed as an argument is keyed as type[obj]", typing.Union[int, str], type[typing.Union[int, str]], "union objects are no longer keyed as type[...]"),
+        ("Any->type[object]", "typing.Any passed as an argument is keyed as type[object]", typing.Any, type[object], "typing.Any is not keyed as type[object]: passing Any no longer counts as object"),
+        ("class->type[obj]", "a class passed as an argument is keyed as type[obj]", Plain, type[Plain], "classes are no longer keyed as type[cls]"),
+        ("class->type[obj]:metaclass", "a class with a metaclass of its own (an ABC, an Enum, a Protocol) is keyed as type[obj] like any class", WithMeta, type[WithMeta], "classes whose metaclass is a subclass of type are keyed by their metaclass: type[...] methods stop matching them"),
+        ("default->type(obj)", "ordinary arguments are keyed by their class", 5, int, "ordinary (non-type) arguments no longer dispatch on type(obj)"),
+        ("default->type(obj):instance", "an instance of a user class is keyed by that class", Plain(), Plain, "ordinary (non-type) arguments no longer dispatch on type(obj)"),
+        ("equal-values-of-other-classes", "True is keyed as bool although it equals 1", True, bool, "an argument is keyed as the class of an equal value"),
+    ]
+    if hasattr(types, "UnionType"):
+        cases.append(("union->type[obj]:pep604", "an `int | str` object passed as an argument is keyed as type[obj]", int | str, type[int | str], "`A | B` objects are no longer keyed as type[...]"))
+    hi.host_types = hi.host_types + (types.GenericAlias,)
+    for key, text, arg, want, why in cases:
+        try:
+            # evaluated twice, after a first evaluation on an equal value of another class: a value-keyed memo shows
+            if arg is True:
+                hi.call_function(f.node, [1], {}, {})
+            got = hi.call_function(f.node, [arg], {}, {})
+        except Raised as r:
+            got = f"raises {r.what}"
+        except TypeError as ex:
+            raise AnalysisError(f"{f.key}: not interpretable on {arg!r}: {ex}")
+        ctx.ob(f"{f.key}:{key}", f.loc(), text + " (interpreted)", got == want and type(got) is type(want), f"for {arg!r} the key is {got!r} instead of {want!r}: {why}")
+
+
+def _r1_subtler_chain_shape(ctx):
     f = A.subtler_fn(ctx.repo)
     ctx.touch(f)
     p = f.params[0]
@@ -294,6 +351,14 @@ def _method_key_by_interpretation(ctx, oc, m, sel):
     if key != want:
         return False, f"looks up {key} where the per-position selector gives {want}"
     return True, ""
+
+
+def get_callgraph_for(ctx):
+    from ..callgraph import CallGraph
+
+    if "callgraph" not in ctx.cache:
+        ctx.cache["callgraph"] = CallGraph(ctx.repo)
+    return ctx.cache["callgraph"]
 
 
 def r2(ctx):
